@@ -285,3 +285,141 @@ fn run<F: Elem>(case: &WhitenCase, obs: &mut Obs) {
     };
     rowwise_and_dataset(&w, "whiten", c, &y, &zy, &close, obs);
 }
+
+// ------------------------------------------------------------------------------------------------
+// PCA whitening of tall, badly conditioned data: a batch statistic
+//
+// linfa-linalg's iterative SVD has a heavy-tailed error (about 1 fit in 200 is off by far more than working
+// precision warrants, see the known finding), so a single fit cannot be held to the accuracy of an SVD of the centred
+// records, eps * sqrt(cond(cov)). The *typical* fit can: over 3 600 probe fits of this stratum on the unchanged tree
+// the statistic s = |cov(Z) - I|_max / (eps * sqrt(cond)) had median 0.4 (f64) / 0.5 (f32), s > 30 in 0.47 % of the
+// fits. A case is therefore a batch of BATCH independent data sets (derived from one seed) and the verdict is on the
+// MEDIAN of s over the batch: it must not exceed MEDIAN_S_MAX. For the unchanged code the chance of a false alarm is
+// C(7,4) * 0.0047^4 < 2e-8 per case. An implementation that works on the Gram matrix X^T X (condition squared) has
+// s ~ sqrt(cond) >= 100 on every data set of the stratum.
+
+pub const BATCH: usize = 7;
+pub const MEDIAN_S_MAX: f64 = 30.0;
+
+#[derive(Debug, Clone, Serialize, Deserialize)]
+pub struct PcaBatchCase {
+    pub seed: u64,
+    pub f32: bool,
+    pub fortran: bool,
+    pub view: bool,
+    /// features 2..=5
+    pub p: usize,
+    /// rows, at least 10 p
+    pub n: usize,
+    /// log10 of the spread ratio between the first and the last principal direction, in tenths
+    /// (f64: 30..=40, i.e. cond 1e6..1e8; f32: 20..=25, i.e. cond 1e4..1e5)
+    pub ratio_tenths: u8,
+}
+
+pub fn pca_batch_cases() -> impl proptest::strategy::Strategy<Value = PcaBatchCase> {
+    use proptest::prelude::*;
+    (any::<u64>(), any::<bool>(), any::<bool>(), any::<bool>(), 2usize..=5, 0usize..=70, 0u8..=10).prop_map(|(seed, f32, fortran, view, p, extra, r)| {
+        PcaBatchCase { seed, f32, fortran, view, p, n: 10 * p + extra, ratio_tenths: if f32 { 20 + r / 2 } else { 30 + r } }
+    })
+}
+
+fn batch_dataset(c: &PcaBatchCase, k: usize) -> Vec<Vec<f64>> {
+    use vengine::gen::SplitMix;
+    let mut rng = SplitMix(c.seed ^ (0x9e37_79b9_7f4a_7c15u64.wrapping_mul(k as u64 + 1)));
+    let p = c.p;
+    let r = c.ratio_tenths as f64 / 10.0;
+    let d: Vec<f64> = (0..p).map(|j| 10f64.powf(-r * j as f64 / (p - 1) as f64)).collect();
+    let mut rot = vec![vec![0.0; p]; p];
+    for (j, row) in rot.iter_mut().enumerate() {
+        row[j] = 1.0;
+    }
+    for a in 0..p {
+        for b in a + 1..p {
+            let th = rng.unit() * std::f64::consts::PI;
+            let (sn, cs) = th.sin_cos();
+            for row in rot.iter_mut() {
+                let (ra, rb) = (row[a], row[b]);
+                row[a] = cs * ra - sn * rb;
+                row[b] = sn * ra + cs * rb;
+            }
+        }
+    }
+    let mu: Vec<f64> = (0..p).map(|_| [0.0, 1.0, -3.5][rng.below(3)]).collect();
+    (0..c.n)
+        .map(|_| {
+            let t: Vec<f64> = (0..p).map(|j| rng.gauss() * d[j]).collect();
+            (0..p).map(|j| crate::gens::round_elem((0..p).map(|q| t[q] * rot[q][j]).sum::<f64>() + mu[j], c.f32)).collect()
+        })
+        .collect()
+}
+
+pub fn check_pca_batch(c: &PcaBatchCase, obs: &mut Obs) {
+    if !(2..=8).contains(&c.p) || c.n < 10 * c.p || c.n > 400 || c.ratio_tenths > 45 {
+        obs.skip("malformed_case");
+        return;
+    }
+    obs.class(if c.f32 { "elem_f32" } else { "elem_f64" });
+    obs.class("pca_batch_tall_ill_conditioned");
+    if c.f32 {
+        run_pca_batch::<f32>(c, obs)
+    } else {
+        run_pca_batch::<f64>(c, obs)
+    }
+}
+
+fn run_pca_batch<F: Elem>(c: &PcaBatchCase, obs: &mut Obs) {
+    let p = c.p;
+    let eps = F::EPS;
+    let mut stats: Vec<(f64, f64, f64)> = vec![]; // (s, deviation, cond)
+    for k in 0..BATCH {
+        let rows = batch_dataset(c, k);
+        let x: Array2<F> = build(&rows, p, c.fortran);
+        let xw = widen(&x);
+        let cov = covariance(&xw, 1.0);
+        let (lam, _) = jacobi_eigh(&cov);
+        let (lmax, lmin) = (lam.first().copied().unwrap_or(0.0), lam.last().copied().unwrap_or(0.0));
+        if !(lmin > 0.0) || !lmax.is_finite() {
+            continue;
+        }
+        let cond = lmax / lmin;
+        let fitted = match vengine::guard(|| fit::<F>(WhKind::Pca, &x, c.view).map(|w| w.arr(x.clone()))) {
+            Ok(Ok(z)) if z.dim() == (c.n, p) => z,
+            Ok(Ok(z)) => {
+                obs.fail("whiten:output-shape", format!("shape {:?}", z.dim()));
+                return;
+            }
+            Ok(Err(e)) => {
+                obs.fail("whiten:fit-error", format!("Pca fit on full-rank {}x{p} data (cond {cond:.3e}) failed: {e:?}", c.n));
+                return;
+            }
+            Err(m) => {
+                obs.fail("panic:whiten-fit", m);
+                return;
+            }
+        };
+        let dev = deviation_from_identity(&widen(&fitted), p).0;
+        let s = if dev.is_nan() { f64::INFINITY } else { dev / (eps * cond.sqrt()) };
+        stats.push((s, dev, cond));
+    }
+    if stats.len() < BATCH {
+        obs.skip("batch_with_rank_deficient_data_set");
+        return;
+    }
+    let min_cond = stats.iter().map(|t| t.2).fold(f64::INFINITY, f64::min);
+    obs.class_if(min_cond >= 1e6, "pca_batch_cond_ge_1e6");
+    obs.class_if(stats.iter().any(|t| t.0 > MEDIAN_S_MAX), "pca_batch_has_an_outlier_fit");
+    obs.nontrivial_if(min_cond >= 1e3);
+    let mut sorted: Vec<f64> = stats.iter().map(|t| t.0).collect();
+    sorted.sort_by(|a, b| a.partial_cmp(b).unwrap_or(std::cmp::Ordering::Equal));
+    let median = sorted[BATCH / 2];
+    obs.ensure(median <= MEDIAN_S_MAX, "whiten:pca-accuracy-below-svd-of-records", || {
+        format!(
+            "Pca whitening of {BATCH} independent {}x{p} data sets ({}, covariance condition {:.1e}..): median of |cov(Z) - I| / (eps sqrt(cond)) is {:.3e} (allowed {MEDIAN_S_MAX}); per data set (statistic, deviation, cond): {:?}",
+            c.n,
+            if c.f32 { "f32" } else { "f64" },
+            min_cond,
+            median,
+            stats
+        )
+    });
+}
